@@ -5,6 +5,7 @@ from __future__ import annotations
 import ast
 from typing import Dict, List, Optional, Set, Tuple
 
+from sa.cfg import CFG
 from sa.model import AnalysisError, FuncInfo, Program, dotted, norm, walk_local
 from sa.report import Context
 from sa.rules import common
@@ -500,6 +501,75 @@ def r07i(ctx: Context) -> None:
                 rule.ok(f"{method.short}: assembled without a template", "f-strings / concatenation only (any template use is listed above)")
 
 
+def r07k(ctx: Context) -> None:
+    """A reported position is a (line, column) pair of one token.  In the reporting API of the plugin
+    base class the line and the column handed to the context must, on every path, be read from the same
+    object and the same pair of fields (token.line_number/column_number, or the original_* pair of a
+    setext heading).  A line from one and a column from the other is a column that can lie outside the line."""
+    from sa.util import enumerate_paths
+
+    prog = ctx.prog
+    rule = ctx.rule("R07k", "the line and the column of a reported failure are read from the same token on every path", 2)
+    base = prog.cls(common.RULE_PLUGIN)
+    collector = prog.method("pymarkdown.plugin_manager.plugin_scan_context.PluginScanContext", "add_triggered_rule")
+    line_index = collector.params.index("line_number") - 1 if "line_number" in collector.params else 1
+    column_index = collector.params.index("column_number") - 1 if "column_number" in collector.params else 2
+
+    def source_of(expr: ast.AST) -> Optional[Tuple[str, str]]:
+        """(object, field prefix) of an attribute read ``<object>.<prefix>line_number`` / ``..column_number``"""
+        if isinstance(expr, ast.Attribute) and expr.attr.endswith(("line_number", "column_number")):
+            prefix = expr.attr[: -len("line_number")] if expr.attr.endswith("line_number") else expr.attr[: -len("column_number")]
+            return norm(expr.value), prefix
+        return None
+
+    checked = 0
+    for func in base.methods.values():
+        sites = [site for site in prog.sites_in(func) if collector in site.targets]
+        if not sites:
+            continue
+        cfg = CFG(func.node)
+        for site in sites:
+            call = site.node
+            if len(call.args) <= max(line_index, column_index):
+                continue
+            position = {"line": call.args[line_index], "column": call.args[column_index]}
+            names = {kind: [n.id for n in ast.walk(expr) if isinstance(n, ast.Name) and isinstance(n.ctx, ast.Load)] for kind, expr in position.items()}
+            direct = {kind: [source_of(n) for n in ast.walk(expr) if source_of(n)] for kind, expr in position.items()}
+            key = func_key(func, call) + " [position]"
+            problems = []
+            paths = 0
+            holders = [s for s in walk_local(func.node) if isinstance(s, ast.stmt) and s is not func.node and any(sub is call for sub in ast.walk(s))]
+            innermost = min(holders, key=lambda s: (getattr(s, 'end_lineno', s.lineno) - s.lineno))
+            target_node = cfg.stmt_node.get(id(innermost))
+            for path in enumerate_paths(cfg, stop=lambda nid: nid == target_node):
+                if not path or path[-1][0] != target_node:
+                    continue
+                paths += 1
+                last: Dict[str, Optional[Tuple[str, str]]] = {}
+                for nid, _label in path:
+                    stmt = cfg.nodes[nid].ast_node
+                    if isinstance(stmt, ast.Assign):
+                        for target in stmt.targets:
+                            for tgt, value, _ in Program._unpack(target, stmt.value):
+                                if isinstance(tgt, ast.Name) and value is not None:
+                                    found = [source_of(n) for n in ast.walk(value) if source_of(n)]
+                                    if found:
+                                        last[tgt.id] = found[0]
+                sources = {}
+                for kind in ("line", "column"):
+                    candidates = list(direct[kind]) + [last[n] for n in names[kind] if n in last]
+                    sources[kind] = candidates[0] if candidates else None
+                if sources["line"] and sources["column"] and sources["line"] != sources["column"]:
+                    problems.append(f"line from {sources['line'][0]}.{sources['line'][1]}line_number, column from {sources['column'][0]}.{sources['column'][1]}column_number")
+            checked += 1
+            if problems:
+                rule.fail(key, where(func, call), f"{func.short} reports a position whose parts come from different places ({problems[0]}): the column can lie outside the reported line")
+            elif paths:
+                rule.ok(key, f"{paths} path(s): line and column from the same token and field pair")
+    if checked < 2:
+        raise AnalysisError(f"only {checked} reporting call(s) found in the plugin base class (2 confirmed)")
+
+
 def run(ctx: Context) -> None:
     common.callbacks_contained(ctx, "R07a")
     common.callbacks_only_from_manager(ctx, "R07b")
@@ -508,6 +578,7 @@ def run(ctx: Context) -> None:
     r07e(ctx)
     r07g(ctx)
     r07i(ctx)
+    r07k(ctx)
     common.optional_dereferences(
         ctx, "R07j", "no parameter or local of a rule or of the plugin manager that may be None is dereferenced unguarded on any path",
         lambda rel: rel.startswith(("pymarkdown/plugins/", "pymarkdown/plugin_manager/")), 100,
